@@ -279,6 +279,56 @@ def malformed(rng, n):
     return cases
 
 
+def identity(rng, full):
+    """the torrent / peer the handshake claims, under every-offset segmentation:
+    (a) own peer id, plain and MSE (as IA and after the negotiation), incoming and outgoing, a cut at every
+        offset of the flight that carries the handshake (the id may arrive in a later read than the info hash);
+    (b) valid MSE for torrent T whose inner handshake names another info hash (unknown, inactive, or a second
+        loaded torrent), same cuts."""
+    cases = []
+    neg = lambda p, c: "e:%s%08x%04x" % (VC, p, c)
+
+    def sweep(mk, total, step=1):
+        for o in range(1, total, step):
+            cases.append(mk(str(o)))
+        cases.append(mk("W"))
+        cases.append(mk("B")) if full else None
+
+    for ext in (0, 1):
+        H = "110" if not ext else "111"
+        # plain, incoming and outgoing
+        sweep(lambda sg: case_in(1, 1, 0, phase(["cH" + H, "c:" + TR], sg)), 68 + 14, 1 if ext == 0 or full else 5)
+        sweep(lambda sg: case_out(1, 1, 0, phase(["cH" + H, "c:" + TR], sg), "X"), 68 + 14, 1 if ext == 0 or full else 5)
+    for (hs, st, p) in ((1, 1, 3), (1, 2, 3), (2, 1, 1), (3, 3, 2)):
+        # own id inside IA: cut anywhere in the flight req1 | skey | negotiation | len(IA) | IA
+        p2 = ["R", "S1", neg(p, 0), "e:0044", "eH110"]
+        _, tot = boundaries(p2)
+        sweep(lambda sg: case_in(hs, st, 0, script([["K", "O3"], p2], ("W", sg))), tot, 1 if (hs, st) == (1, 1) or full else 4)
+        # own id after the negotiation (no IA), in the negotiated mode
+        p3 = ["mH110", "m:" + TR]
+        sweep(lambda sg: case_in(hs, st, 0, script([["K"], ["R", "S1", neg(p, 0), "e:0000"], p3], ("W", "W", sg))), 82, 1 if (hs, st) == (1, 1) or full else 4)
+        # outgoing: the responder's reply + handshake with our own id
+        po = ["N%d.0" % p, "mH110", "m:" + TR]
+        _, tot = boundaries(po)
+        sweep(lambda sg: case_out(hs if hs != 1 else 2, st, 0, "X", script([["K", "O2"], po], ("W", sg))), tot, 1 if (hs, st) == (1, 1) or full else 4)
+    # (b) inner info hash differs from the SKEY torrent
+    for (sk, ht) in ((1, 3), (1, 4), (1, 2), (4, 1), (4, 3)):
+        for (hs, st, p) in ((1, 1, 3), (1, 2, 3), (2, 1, 1), (3, 3, 2)):
+            p2 = ["R", "S%d" % sk, neg(p, 0), "e:0044", "eH%d00" % ht]
+            _, tot = boundaries(p2)
+            step = 1 if (sk, ht, hs, st) in ((1, 4, 1, 1), (1, 3, 1, 2)) or full else 9
+            sweep(lambda sg: case_in(hs, st, 0, script([["K", "O1"], p2, ["m:" + TR]], ("W", sg, "W"))), tot, step)
+            p3 = ["mH%d00" % ht, "m:" + TR]
+            sweep(lambda sg: case_in(hs, st, 0, script([["K"], ["R", "S%d" % sk, neg(p, 5), "eZ5", "e:0000"], p3], ("W", "W", sg))), 82, step)
+    # outgoing: the peer answers with another torrent's hash
+    for ht in (3, 4, 2):
+        sweep(lambda sg: case_out(1, 1, 0, phase(["cH%d00" % ht, "c:" + TR], sg), "X"), 82, 1 if ht == 4 or full else 9)
+        po = ["N3.0", "mH%d00" % ht, "m:" + TR]
+        _, tot = boundaries(po)
+        sweep(lambda sg: case_out(2, 1, 0, "X", script([["K"], po], ("W", sg))), tot, 1 if ht == 4 or full else 9)
+    return cases
+
+
 def arbitrary(rng, n):
     cases = []
     for _ in range(n):
@@ -314,6 +364,7 @@ def gen_tagged(seed, tier):
         corpus += [l.rstrip("\n") for l in open(f) if l.strip() and not l.startswith("#")]
     streams = [("corpus", corpus), ("matrix", matrix(rng, full)), ("segmentation", seg_sweep(rng, full)),
                ("bytewise", bytewise(rng, 150 if full else 24)), ("malformed", malformed(rng, 1200 if full else 150)),
+               ("identity", identity(rng, full)),
                ("arbitrary", arbitrary(rng, 1500 if full else 150))]
     cases, tags, stats = [], [], {}
     for name, cs in streams:
